@@ -461,3 +461,7 @@ package channels
 //@ lemma [cancel-fail-cleanup-stays] {C09}: foreach E in (*) except (CleanupComplete, Open, Cancel, Error, Complete, BeginFinalizing) ::
 //@     foreach S in statuses(Cancelling, Failing) :: forall s State :: s.Status == S ==> step(s, E).Status == S
 //@     -- while cancelling / failing, only the ending events themselves can move the channel: late protocol events are recorded, never acted on
+
+//@ func (*channels.Channels).InProgress {C06}
+//@   loop 0 invariant [listing] $i >= 0
+//@   ensures [lists-through-group] calls(Group.List) == 1 && only(Group.List)
